@@ -13,7 +13,13 @@ PROPS = {
                                   'broadcast failure each; thorough tier adds a control message during a 6.5 s step'}],
             'not_claimed': ['the exact subject text state_changed.<from>.<to> is checked by the bounded search only (enum values are not modelled)',
                             'thread hand-over of RemoteProcessThreadController / LoopCommunicator (real threads are outside the family)']},
-    'C12': {'scans': [], 'trusted': [], 'bounded': [], 'not_claimed': []},
+    'C12': {'scans': [], 'trusted': [],
+            'bounded': [{'name': 'emission_search', 'recipe': 'output_emission',
+                         'functions': 'Process.out for NESTED paths (descent over namespace components), PortNamespace.get_port(create_dynamically), '
+                                      'Port.validate / validate_dynamic_ports (assumed in the contracts), on_finish validation on a live process',
+                         'bound': '16 emissions (declared, optional, nested, dynamic at depth 1 and 2, undeclared, rejected by type / validator / '
+                                  'namespace, crashing validator) x outputs empty or not: 32 runs'}],
+            'not_claimed': ['which values a port accepts (C11); nested emission paths are covered by the bounded search only']},
     'C11': {'scans': [], 'trusted': [], 'bounded': [], 'not_claimed': []},
     'C10': {'scans': [], 'trusted': [],
             'bounded': [{'name': 'barrier_search', 'recipe': 'context_barrier',
